@@ -229,6 +229,7 @@ package parser
 //@   inline
 //@ func isIdentifierPart
 //@   inline
+//@ spec idPart(c rune) bool = c == 36 || c == 95 || c == 92 || (97 <= c && c <= 122) || (65 <= c && c <= 90) || (48 <= c && c <= 57) || (c >= 128 && unicodeIDContinue(c))
 //@ spec idStart(c rune) bool = c == 36 || c == 95 || c == 92 || (97 <= c && c <= 122) || (65 <= c && c <= 90) || (c >= 128 && unicodeIDStart(c))
 //@ func (*ErrorList).Add
 //@   nothrow
@@ -471,3 +472,285 @@ package parser
 // Package-level state is written only by the package initialisers: nothing is shared
 // mutably between runtimes through globals (C20).
 //@ globals_readonly[C20]
+
+// ---------------------------------------------------------------------------
+// early errors that depend on the statement context (ES5 12.6-12.8, 12.12) (C04)
+// ---------------------------------------------------------------------------
+// The recursive-descent parser keeps the context of the statement being parsed in its scope
+// record: inIteration / inSwitch (is there an enclosing loop / switch in this function) and the
+// label set.  Each construct that changes the context restores it when it is done, so that the
+// context of a statement is that of its enclosing constructs only: scopeKept.  Proved for the
+// functions that change the context (iteration statements, switch, labelled statements, function
+// bodies); ASSUMED (trusted, the inductive hypothesis of the descent) of the other parse
+// functions, which only pass the context through to the functions they call.
+//@ func (*parser).openScope
+//@   inline
+//@ func (*parser).closeScope
+//@   inline
+//@ spec scopeKept(p *parser) bool = p.scope == old(p.scope) && p.scope.inIteration == old(p.scope.inIteration) && p.scope.inSwitch == old(p.scope.inSwitch) && len(p.scope.labels) == old(len(p.scope.labels)) && p.scope.outer == old(p.scope.outer)
+//@ func (*parser).parseBlockStatement
+//@   trusted
+//@   requires p != nil && p.scope != nil
+//@   ensures p.scope != nil && scopeKept(p)
+//@ func (*parser).parseEmptyStatement
+//@   trusted
+//@   requires p != nil && p.scope != nil
+//@   ensures p.scope != nil && scopeKept(p)
+//@ func (*parser).parseStatementList
+//@   trusted
+//@   requires p != nil && p.scope != nil
+//@   ensures p.scope != nil && scopeKept(p)
+//@ func (*parser).parseTryStatement
+//@   trusted
+//@   requires p != nil && p.scope != nil
+//@   ensures p.scope != nil && scopeKept(p)
+//@ func (*parser).parseFunctionParameterList
+//@   trusted
+//@   requires p != nil && p.scope != nil
+//@   ensures p.scope != nil && scopeKept(p)
+//@ func (*parser).parseFunctionStatement
+//@   trusted
+//@   requires p != nil && p.scope != nil
+//@   ensures p.scope != nil && scopeKept(p)
+//@ func (*parser).parseFunction
+//@   trusted
+//@   requires p != nil && p.scope != nil
+//@   ensures p.scope != nil && scopeKept(p)
+//@ func (*parser).parseDebuggerStatement
+//@   trusted
+//@   requires p != nil && p.scope != nil
+//@   ensures p.scope != nil && scopeKept(p)
+//@ func (*parser).parseReturnStatement
+//@   trusted
+//@   requires p != nil && p.scope != nil
+//@   ensures p.scope != nil && scopeKept(p)
+//@ func (*parser).parseThrowStatement
+//@   trusted
+//@   requires p != nil && p.scope != nil
+//@   ensures p.scope != nil && scopeKept(p)
+//@ func (*parser).parseWithStatement
+//@   trusted
+//@   requires p != nil && p.scope != nil
+//@   ensures p.scope != nil && scopeKept(p)
+//@ func (*parser).parseCaseStatement
+//@   trusted
+//@   requires p != nil && p.scope != nil
+//@   ensures p.scope != nil && scopeKept(p)
+//@ func (*parser).parseForIn
+//@   trusted
+//@   requires p != nil && p.scope != nil
+//@   ensures p.scope != nil && scopeKept(p)
+//@ func (*parser).parseFor
+//@   trusted
+//@   requires p != nil && p.scope != nil
+//@   ensures p.scope != nil && scopeKept(p)
+//@ func (*parser).parseForOrForInStatement
+//@   trusted
+//@   requires p != nil && p.scope != nil
+//@   ensures p.scope != nil && scopeKept(p)
+//@ func (*parser).parseVariableStatement
+//@   trusted
+//@   requires p != nil && p.scope != nil
+//@   ensures p.scope != nil && scopeKept(p)
+//@ func (*parser).parseWhileStatement
+//@   trusted
+//@   requires p != nil && p.scope != nil
+//@   ensures p.scope != nil && scopeKept(p)
+//@ func (*parser).parseIfStatement
+//@   trusted
+//@   requires p != nil && p.scope != nil
+//@   ensures p.scope != nil && scopeKept(p)
+//@ func (*parser).parseSourceElement
+//@   trusted
+//@   requires p != nil && p.scope != nil
+//@   ensures p.scope != nil && scopeKept(p)
+//@ func (*parser).parseSourceElements
+//@   trusted
+//@   requires p != nil && p.scope != nil
+//@   ensures p.scope != nil && scopeKept(p)
+//@ func (*parser).parseProgram
+//@   trusted
+//@   requires p != nil && p.scope != nil
+//@   ensures p.scope != nil && scopeKept(p)
+//@ func (*parser).parseIdentifier
+//@   trusted
+//@   requires p != nil && p.scope != nil
+//@   ensures p.scope != nil && scopeKept(p)
+//@ func (*parser).parsePrimaryExpression
+//@   trusted
+//@   requires p != nil && p.scope != nil
+//@   ensures p.scope != nil && scopeKept(p)
+//@ func (*parser).parseVariableDeclaration
+//@   trusted
+//@   requires p != nil && p.scope != nil
+//@   ensures p.scope != nil && scopeKept(p)
+//@ func (*parser).parseVariableDeclarationList
+//@   trusted
+//@   requires p != nil && p.scope != nil
+//@   ensures p.scope != nil && scopeKept(p)
+//@ func (*parser).parseObjectPropertyKey
+//@   trusted
+//@   requires p != nil && p.scope != nil
+//@   ensures p.scope != nil && scopeKept(p)
+//@ func (*parser).parseObjectProperty
+//@   trusted
+//@   requires p != nil && p.scope != nil
+//@   ensures p.scope != nil && scopeKept(p)
+//@ func (*parser).parseObjectLiteral
+//@   trusted
+//@   requires p != nil && p.scope != nil
+//@   ensures p.scope != nil && scopeKept(p)
+//@ func (*parser).parseArrayLiteral
+//@   trusted
+//@   requires p != nil && p.scope != nil
+//@   ensures p.scope != nil && scopeKept(p)
+//@ func (*parser).parseArgumentList
+//@   trusted
+//@   requires p != nil && p.scope != nil
+//@   ensures p.scope != nil && scopeKept(p)
+//@ func (*parser).parseCallExpression
+//@   trusted
+//@   requires p != nil && p.scope != nil
+//@   ensures p.scope != nil && scopeKept(p)
+//@ func (*parser).parseDotMember
+//@   trusted
+//@   requires p != nil && p.scope != nil
+//@   ensures p.scope != nil && scopeKept(p)
+//@ func (*parser).parseBracketMember
+//@   trusted
+//@   requires p != nil && p.scope != nil
+//@   ensures p.scope != nil && scopeKept(p)
+//@ func (*parser).parseNewExpression
+//@   trusted
+//@   requires p != nil && p.scope != nil
+//@   ensures p.scope != nil && scopeKept(p)
+//@ func (*parser).parseLeftHandSideExpression
+//@   trusted
+//@   requires p != nil && p.scope != nil
+//@   ensures p.scope != nil && scopeKept(p)
+//@ func (*parser).parseLeftHandSideExpressionAllowCall
+//@   trusted
+//@   requires p != nil && p.scope != nil
+//@   ensures p.scope != nil && scopeKept(p)
+//@ func (*parser).parsePostfixExpression
+//@   trusted
+//@   requires p != nil && p.scope != nil
+//@   ensures p.scope != nil && scopeKept(p)
+//@ func (*parser).parseUnaryExpression
+//@   trusted
+//@   requires p != nil && p.scope != nil
+//@   ensures p.scope != nil && scopeKept(p)
+//@ func (*parser).parseMultiplicativeExpression
+//@   trusted
+//@   requires p != nil && p.scope != nil
+//@   ensures p.scope != nil && scopeKept(p)
+//@ func (*parser).parseAdditiveExpression
+//@   trusted
+//@   requires p != nil && p.scope != nil
+//@   ensures p.scope != nil && scopeKept(p)
+//@ func (*parser).parseShiftExpression
+//@   trusted
+//@   requires p != nil && p.scope != nil
+//@   ensures p.scope != nil && scopeKept(p)
+//@ func (*parser).parseRelationalExpression
+//@   trusted
+//@   requires p != nil && p.scope != nil
+//@   ensures p.scope != nil && scopeKept(p)
+//@ func (*parser).parseEqualityExpression
+//@   trusted
+//@   requires p != nil && p.scope != nil
+//@   ensures p.scope != nil && scopeKept(p)
+//@ func (*parser).parseBitwiseAndExpression
+//@   trusted
+//@   requires p != nil && p.scope != nil
+//@   ensures p.scope != nil && scopeKept(p)
+//@ func (*parser).parseBitwiseExclusiveOrExpression
+//@   trusted
+//@   requires p != nil && p.scope != nil
+//@   ensures p.scope != nil && scopeKept(p)
+//@ func (*parser).parseBitwiseOrExpression
+//@   trusted
+//@   requires p != nil && p.scope != nil
+//@   ensures p.scope != nil && scopeKept(p)
+//@ func (*parser).parseLogicalAndExpression
+//@   trusted
+//@   requires p != nil && p.scope != nil
+//@   ensures p.scope != nil && scopeKept(p)
+//@ func (*parser).parseLogicalOrExpression
+//@   trusted
+//@   requires p != nil && p.scope != nil
+//@   ensures p.scope != nil && scopeKept(p)
+//@ func (*parser).parseConditionalExpression
+//@   trusted
+//@   requires p != nil && p.scope != nil
+//@   ensures p.scope != nil && scopeKept(p)
+//@ func (*parser).parseAssignmentExpression
+//@   trusted
+//@   requires p != nil && p.scope != nil
+//@   ensures p.scope != nil && scopeKept(p)
+//@ func (*parser).parseExpression
+//@   trusted
+//@   requires p != nil && p.scope != nil
+//@   ensures p.scope != nil && scopeKept(p)
+
+// 12.6: the body of an iteration statement is parsed with inIteration set, and the flag of the
+// enclosing context is restored afterwards (also when the body ends in errors)
+//@ func (*parser).parseIterationStatement
+//@   props C04
+//@   nosafety
+//@   abstract_callee (*parser).scan, (*parser).error
+//@   requires p != nil && p.scope != nil
+//@   at_call (*parser).parseStatement : p.scope.inIteration
+//@   ensures p.scope != nil && scopeKept(p)
+//@ func (*parser).parseDoWhileStatement
+//@   props C04
+//@   nosafety
+//@   abstract_callee (*parser).scan, (*parser).error
+//@   requires p != nil && p.scope != nil
+//@   at_call (*parser).parseStatement : p.scope.inIteration
+//@   at_call (*parser).parseBlockStatement : p.scope.inIteration
+//@   ensures p.scope != nil && scopeKept(p)
+// 12.11: the case clauses are parsed with inSwitch set; restored afterwards
+//@ func (*parser).parseSwitchStatement
+//@   props C04
+//@   nosafety
+//@   abstract_callee (*parser).scan, (*parser).error
+//@   requires p != nil && p.scope != nil
+//@   invariant@1 p.scope == old(p.scope) && p.scope.inSwitch && p.scope.inIteration == old(p.scope.inIteration) && len(p.scope.labels) == old(len(p.scope.labels)) && p.scope.outer == old(p.scope.outer)
+//@   at_call (*parser).parseCaseStatement : p.scope.inSwitch
+//@   ensures p.scope != nil && scopeKept(p)
+// 13: a function body starts a new context (no enclosing loop, switch or label) and the
+// enclosing one is current again afterwards
+//@ func (*parser).parseFunctionBlock
+//@   props C04
+//@   nosafety
+//@   abstract_callee (*parser).scan, (*parser).error
+//@   requires p != nil && p.scope != nil && node != nil
+//@   at_call (*parser).parseBlockStatement : p.scope != old(p.scope) && !p.scope.inIteration && !p.scope.inSwitch && len(p.scope.labels) == 0
+//@   ensures p.scope == old(p.scope)
+// 12.12: the label is in the label set exactly while the labelled statement is parsed
+//@ func (*parser).parseStatement
+//@   props C04
+//@   nosafety
+//@   abstract_callee (*parser).scan, (*parser).error
+//@   exact_append
+//@   requires p != nil && p.scope != nil
+//@   at_call (*parser).parseStatement : len(p.scope.labels) == old(len(p.scope.labels)) + 1 && p.scope.labels[len(p.scope.labels)-1] == label
+//@   ensures p.scope != nil && scopeKept(p)
+// 12.7: continue (with or without label) outside an iteration statement is an error
+//@ func (*parser).parseContinueStatement
+//@   props C04
+//@   nosafety
+//@   abstract_callee (*parser).scan, (*parser).error
+//@   requires p != nil && p.scope != nil
+//@   ensures is(result, *ast.BranchStatement) ==> old(p.scope.inIteration)
+//@   calls (*parser).error(_, _, _, _) as er whenret !is(result, *ast.BranchStatement)
+//@   ensures p.scope != nil && scopeKept(p)
+// 12.8: break without label outside an iteration or switch statement is an error
+//@ func (*parser).parseBreakStatement
+//@   props C04
+//@   nosafety
+//@   abstract_callee (*parser).scan, (*parser).error
+//@   requires p != nil && p.scope != nil
+//@   ensures is(result, *ast.BranchStatement) && result.(*ast.BranchStatement).Label == nil ==> old(p.scope.inIteration) || old(p.scope.inSwitch)
+//@   ensures p.scope != nil && scopeKept(p)
